@@ -115,6 +115,12 @@ def run(ctx):
         return
     L = loops[0]
     M = norm(L['elem'])
+    brk = sorted({a for a, _ in break_exits(s, L)})
+    if brk:
+        ctx.violation('C12.R3', KEY + ':early-exit', 'the candidate loop is left by a `break` (block(s) %s) before every legal move was compared: a later '
+                      'candidate that passes the same filters is never seen, so ambiguous text is accepted' % brk, where(body, L['next']['line']))
+    else:
+        ctx.ok('C12.R3', 'the candidate loop examines every legal move (left only by exhaustion or by returning an error)', where(body, L['next']['line']))
     # the iterator is MoveGen::new_legal(board)
     it = L['source']
     itv = None
